@@ -1022,7 +1022,15 @@ def run_traced(prog, dvec, depth=3, budget=20000):
                 keep.append(val)
             if m["kind"] != "alloc" and not isinstance(val, (int, str, float, bool, type(None))) and id(val) not in alloc:
                 keep.append(val)
-            defs.append((line, var, snapshot(val, alloc, depth)))
+            defs.append((line, var, snapshot(val, alloc, depth), stack_depth(frame)))
+
+    def stack_depth(frame):
+        n = 0
+        while frame is not None:
+            if frame.f_code.co_filename == filename and frame.f_code.co_name != "<module>":
+                n += 1
+            frame = frame.f_back
+        return n
 
     def tracer(frame, event, arg):
         if frame.f_code.co_filename != filename:
@@ -1037,7 +1045,7 @@ def run_traced(prog, dvec, depth=3, budget=20000):
                         keep.append(obj)
                 for p in m.get("params", []):
                     if p in frame.f_locals and m.get("name") != "main":
-                        defs.append((frame.f_code.co_firstlineno, p, snapshot(frame.f_locals[p], alloc, depth)))
+                        defs.append((frame.f_code.co_firstlineno, p, snapshot(frame.f_locals[p], alloc, depth), stack_depth(frame)))
             return tracer
         if event == "line":
             steps[0] += 1
